@@ -19,6 +19,7 @@ Fixpoint classify (op : N) (expected : N) (i : nat) (written : bool) (l : list d
     let c :=
       match op with
       | 0 | 3 | 4 | 8 | 9 => Checked 1
+      | 14 => Checked 1     (* a group transition: the AL control write, the status code read after a refusal and every status poll *)
       | 1 | 5 | 7 => Checked expected
       | 2 | 6 => Exempt                        (* ignore_wkc / WrappedWrite::send *)
       | 10 => if (i <? 2)%nat then Checked 1 else Exempt      (* the code read of the error path is best effort *)
@@ -44,7 +45,7 @@ Inductive werr := WWkc (expected received : N) | WDevice.
 Definition outcome (op expected : N) (al_error : bool) (l : list dg) : res werr unit :=
   match first_mismatch (classify op expected 0 false l) with
   | Some (e, w) => Err (WWkc e w)
-  | None => if (op =? 10) && al_error then Err WDevice else Ok tt
+  | None => if ((op =? 10) || (op =? 14)) && al_error then Err WDevice else Ok tt
   end.
 
 Definition obs_outcome (op expected : N) (al_error : bool) (l : list dg) : list Z :=
